@@ -27,6 +27,43 @@ def regenerate_tables():
     return emitted, cat
 
 
+def relayout(src):
+    """the same tokens, one per line wherever blanks separated them, and a line break after every `:` and `->` (so that
+    type annotations, return types and size queries span lines); strings, character literals and comments are kept"""
+    out = []
+    i = 0
+    n = len(src)
+    while i < n:
+        c = src[i]
+        if c == '"' or c == "'":
+            j = i + 1
+            while j < n and src[j] != c and src[j] != "\n":
+                j += 2 if src[j] == "\\" else 1
+            out.append(src[i:j + 1])
+            i = j + 1
+        elif src.startswith("//", i):
+            j = src.find("\n", i)
+            j = n if j < 0 else j
+            out.append(src[i:j])
+            i = j
+        elif c in " \t":
+            j = i
+            while j < n and src[j] in " \t":
+                j += 1
+            out.append("\n")
+            i = j
+        elif c == ":":
+            out.append(":\n")
+            i += 1
+        elif src.startswith("->", i):
+            out.append("->\n")
+            i += 2
+        else:
+            out.append(c)
+            i += 1
+    return "".join(out)
+
+
 def parse_diag(ans):
     d = dict(x.split("=", 1) for x in ans.split(" ") if "=" in x)
     items = []
@@ -94,8 +131,37 @@ def main():
         if len(edges) >= len(ids) and "const" in src and "struct" in src:
             inputs.append([("m.pn", src + "fn main()\n{\n}\n")])
     inputs.append([("m.pn", "const A: usize = |:S|;\nconst B: usize = A + 16;\nconst C: usize = B + A;\nstruct S\n{\n\tbuf: [C]u8,\n}\nfn main()\n{\n}\n")])
+    # diagnostics located at a type: every type to nesting depth 1 (2 in the thorough tier) in every position, as written
+    # and with the type annotation wrapped over lines (the location of an annotation is built from the span of its tokens)
+    for (sx, tsrc) in c11.types(2 if thorough else 1):
+        for pos in c11.POS:
+            src = c11.type_program(pos, tsrc)
+            inputs.append([("m.pn", src)])
+            inputs.append([("m.pn", relayout(src))])
+    # size and length queries, casts with a target type, wrapped over lines
+    for q in ("|:\n[]u8|", "|:\n&\n[4]i32|", "|\nmissing|", "|:\nNope|", "7u8 as\n[2]u8", "7u8 as\n&\nu8", "cast\n7u8", "cast 7u8 as\nbool"):
+        inputs.append([("m.pn", "fn main()\n{\n\tvar x: usize =\n%s;\n}\n" % q)])
+        inputs.append([("m.pn", "const X: usize =\n%s;\nfn main()\n{\n}\n" % q)])
+    # the same programs laid out one token per line: every multi-token construct then spans lines, and a location built
+    # from a span must still be reported on the line its span starts on
+    relaid = {}
+    for i in range(len(inputs)):
+        u = inputs[i]
+        if len(u) == 1 and (thorough or i % 3 == 0) and "\r" not in u[0][1]:
+            relaid[len(inputs)] = i
+            inputs.append([("m.pn", relayout(u[0][1]))])
     reqs = ["diag\t" + "\t".join(x for nm, s in u for x in (nm, esc(s))) for u in inputs]
     h = run_harness(reqs)
+    for j, i in relaid.items():
+        if h[i].startswith(("crash", "panic")) or h[j].startswith(("crash", "panic")):
+            continue
+        ci = sorted((k, c) for (k, c, _f, _s, _e, _l, _c) in parse_diag(h[i])[1])
+        cj = sorted((k, c) for (k, c, _f, _s, _e, _l, _c) in parse_diag(h[j])[1])
+        dist["layout-variant:token-per-line"] += 1
+        if ci != cj:
+            rep.violation("layout:token-per-line:" + reqs[i][:200], {
+                "why": "the same tokens laid out one per line get different diagnostics", "files": dict(inputs[j]),
+                "harness_request": reqs[j], "original": inputs[i][0][1], "expected (kind, code)": ci[:12], "got": cj[:12]})
     checked = located = 0
     for u, rq, a in zip(inputs, reqs, h):
         if a.startswith("crash") or a.startswith("panic"):
